@@ -161,7 +161,7 @@ func runC02(c *Ctx) {
 	}
 	var cases []ccase
 	// corpus: past failures first
-	for _, src := range []string{"(1 = a) = 1", "(true & a) & false", "3 & 5", "(2 * a) * 0.5", "(a | true) | false",
+	for _, src := range []string{"(1 = a) = 1", "(true & a) & false", "3 & 5", "(2 * a) * 0.5", "(a | true) | false", "(0 / 0) / a", "(0.0 / 0.0) + a", "[0 / 0, 1.0 / 0.0, (0.0 - 1.0) / 0.0][a % 3]",
 		"if true then 1 else tickI(2)", "tickI(1) + tickI(2) * 0", "let k = tickI(5); k + k", "[tickI(1), 2].size()",
 		"(x -> tickI(x))(3)", "try tickI(1) + [1][5] catch tickI(2)", "false & tickI(true)", "true | tickI(false)",
 		"switch 2 case 1 : tickI(10) case 2 : tickI(20) default tickI(30)", "tickP(1) + 2", "(x -> x + tickP(1))(2)",
